@@ -158,6 +158,9 @@ def finish(meta, src, name, valid):
         if 'bbsim' in old:
             hist.append({"at": old.get('validated_at'), "bbsim": old['bbsim'], "caught": old.get('caught')})
         meta['history'] = hist
+        for k in ('summary', 'needs_to_manifest'):
+            if k in old and k not in meta:
+                meta[k] = old[k]
         json.dump(meta, open(mp, 'w'), indent=1)
     print(json.dumps({k: meta.get(k) for k in ('name', 'valid', 'caught')}))
     return 0
